@@ -153,6 +153,18 @@ def laxCat (B : Backend) (op : String) (args : List Sx) (impl : Sx) : Option Out
   | "lax.target", [f] => do
     let f : LF ← dec f
     pure (exact f.target impl)
+  | "lax.json", [f] => do
+    let f : LF ← dec f
+    -- the documented JSON form (README): field names, NodeId as a plain number, keys sorted
+    let arr := fun (xs : L) => "[" ++ ",".intercalate (xs.map toString) ++ "]"
+    let adj := "[" ++ ",".intercalate (f.hypergraph.adjacency.map fun e =>
+      "{\"sources\":" ++ arr e.sources ++ ",\"targets\":" ++ arr e.targets ++ "}") ++ "]"
+    let h := "{\"adjacency\":" ++ adj ++ ",\"edges\":" ++ arr f.hypergraph.edges ++
+      ",\"nodes\":" ++ arr f.hypergraph.nodes ++
+      ",\"quotient\":[" ++ arr f.hypergraph.quotient.1 ++ "," ++ arr f.hypergraph.quotient.2 ++ "]}"
+    let text := "{\"hypergraph\":" ++ h ++ ",\"sources\":" ++ arr f.sources ++ ",\"targets\":" ++ arr f.targets ++ "}"
+    let m := okSx (.l [.s text, .s "true"])
+    pure { model := m, agree := m == impl, rel := "exact" }
   | "lax.to_hypergraph", [h] => do
     let h : LH ← dec h
     pure (exact h.toHypergraph impl)
